@@ -615,6 +615,19 @@ func c20Isolation(c *mon.Ctx, r *mon.Rand) {
 			}
 		}
 	}
+	if reuse {
+		// the caller goes on using its buffers for something else
+		for _, b := range bufV {
+			for k := range b {
+				b[k] = 12345.678 + float64(k)
+			}
+		}
+		for _, b := range bufD {
+			for k := range b {
+				b[k] = time.Duration(777 + k)
+			}
+		}
+	}
 	tally.VerifReportPass(root)
 	// a third of the sequential cases go on: one member that lives in a subscope
 	// of its own is closed and dropped by a pass, a further histogram with a
@@ -683,6 +696,34 @@ func c20Isolation(c *mon.Ctx, r *mon.Rand) {
 			continue
 		}
 		checkHistLog(c, kind, cached, log, hes[i], ctx)
+	}
+	// what a plain reporter is told the specification is: the bounds the
+	// histogram was created with, whatever the caller has done to its slice since
+	if prec != nil {
+		for i := range fam {
+			if skipped[i] || custom[i] {
+				continue
+			}
+			for _, ev := range log {
+				if ev.Name != hes[i].Name || ev.Spec == nil || (ev.Kind != mon.EvHistV && ev.Kind != mon.EvHistD) {
+					continue
+				}
+				same := ev.Spec.Len() == len(fam[i].V)+len(fam[i].D)
+				if same && fam[i].IsDur {
+					for k, d := range ev.Spec.AsDurations() {
+						same = same && d == fam[i].D[k]
+					}
+				} else if same {
+					for k, v := range ev.Spec.AsValues() {
+						same = same && math.Float64bits(v) == math.Float64bits(fam[i].V[k])
+					}
+				}
+				if !same {
+					c.Violation("buckets-arg-differs/"+kind, map[string]interface{}{"why": fmt.Sprintf("histogram %s was created with %v; the specification handed to the reporter with its samples is %v", hes[i].Name, fam[i], ev.Spec), "case": ctx})
+					return
+				}
+			}
+		}
 	}
 }
 
